@@ -258,7 +258,10 @@ def declare (name : String) (k : Kind) (p : Option Pos) (dupCls : Cls) (dupPos :
 def recordPattern (cfg : Cfg) (sy : Sym) (e : Node) (s : St) : St :=
   let r := evalPattern cfg.fmtFloat s e
   let s' := { s with errors := s.errors ++ r.2 }
-  if r.1.isEmpty then s' else { s' with patterns := (sy.id, r.1) :: s'.patterns }
+  if r.1.isEmpty then s'
+  -- a fragment over the length limit is reported where it is defined, and its text is not kept
+  else if r.1.length > cfg.maxRegexLen then s'.err .regexTooLong sy.pos
+  else { s' with patterns := (sy.id, r.1) :: s'.patterns }
 
 def closeDeco (sy : Sym) (whole : Option Pos) (s : St) : St :=
   match s.decoScopes with
